@@ -2,6 +2,18 @@
 // DOMLSParserImpl) over the four scanners and dumps a canonical event stream + the error codes
 // reported through XMLErrorReporter::error, so that the APIs/scanners can be compared with each
 // other and with the extracted model.  Also dumps the XMLChar tables and the XMLErrs severity map.
+//
+//   parse <api> <scanner> <ns> <hexbytes> [<flags> [<sysid>=<hexbytes>]...]
+//     api sax|sax2|dom|ls, scanner WF|IG|DG|SG, ns 0|1; response `<events> | <errors> | fh=<n>`
+//     flags: letters, or `-` for none (the 5-token request = no flags, no entities)
+//       p  progressive parse (parseFirst / parseNext / parseReset); `ls` answers `unsupported | - | fh=0`
+//       r  entity reference boundaries R<name> ... r<name> (DOM builders create EntityReference nodes)
+//       w  ignorable whitespace dropped (DOM: include-ignorable-whitespace off)
+//       l  `@<line>:<col>` appended to S tokens (sax, sax2 only)
+//       d  D<name> token for the DOCTYPE
+//     <sysid>=<hexbytes>: external entities / external subset served from memory, looked up by the
+//       system id literal (or its last path component); ids not listed fall back to the library
+//   chartab | chartab11 | errsev
 #include "xh_common.hpp"
 #include <xercesc/util/XMLUni.hpp>
 #include <xercesc/util/XMLUniDefs.hpp>
